@@ -3,6 +3,7 @@ package main
 import (
 	"fmt"
 	"go/ast"
+	"go/constant"
 	"go/token"
 	"go/types"
 	"sort"
@@ -311,7 +312,7 @@ func ruleSwapOrder(c *Ctx) {
 			}
 			has := false
 			ast.Inspect(lit.Body, func(x ast.Node) bool {
-				if cc, ok := x.(*ast.CallExpr); ok && isFunc(callee(info, cc), "os", "Create") {
+				if cc, ok := x.(*ast.CallExpr); ok && (isFunc(callee(info, cc), "os", "Create") || isFunc(callee(info, cc), "os", "OpenFile")) && len(cc.Args) >= 1 && isShrinkPath(cc.Args[0]) {
 					has = true
 				}
 				return true
@@ -319,6 +320,48 @@ func ruleSwapOrder(c *Ctx) {
 			return has
 		})
 		okTrue = tl.Valid() && len(creates) > 0 && outer.Dominates(tl, creates[0])
+	}
+	// the rewrite starts from an empty file: whatever an interrupted earlier shrink left under the same name is
+	// cut off (os.Create, OpenFile with O_TRUNC, or a Truncate(0) / Remove before the first write)
+	{
+		var opens []*ast.CallExpr
+		truncated := false
+		ast.Inspect(fn.Decl.Body, func(x ast.Node) bool {
+			cc, ok := x.(*ast.CallExpr)
+			if !ok {
+				return true
+			}
+			f := callee(info, cc)
+			switch {
+			case isFunc(f, "os", "Create") && len(cc.Args) == 1 && isShrinkPath(cc.Args[0]):
+				opens = append(opens, cc)
+				truncated = true
+			case isFunc(f, "os", "OpenFile") && len(cc.Args) == 3 && isShrinkPath(cc.Args[0]):
+				opens = append(opens, cc)
+				if tv, ok := info.Types[cc.Args[1]]; ok && tv.Value != nil {
+					if flags, exact := constant.Int64Val(constant.ToInt(tv.Value)); exact {
+						for _, imp := range fn.Pkg.Types.Imports() {
+							if imp.Path() == "os" {
+								if k, ok := imp.Scope().Lookup("O_TRUNC").(*types.Const); ok {
+									if tr, exact := constant.Int64Val(constant.ToInt(k.Val())); exact && flags&tr != 0 {
+										truncated = true
+									}
+								}
+							}
+						}
+					}
+				}
+			case (isFunc(f, "os", "Remove") || isFunc(f, "os", "Truncate")) && len(cc.Args) >= 1 && isShrinkPath(cc.Args[0]):
+				truncated = true
+			}
+			return true
+		})
+		switch {
+		case len(opens) == 0:
+			c.und("new-file-starts-empty", fn.Decl.Pos(), "the open of the rewrite file (<log>-shrink) was not found")
+		default:
+			c.check(truncated, "new-file-starts-empty", opens[0].Pos(), "the rewrite file is created empty (os.Create / O_TRUNC / removed first)", "the rewrite file is opened without truncation: if an interrupted earlier shrink left a longer file under that name, its tail stays behind the new content and becomes part of the live log at the rename")
+		}
 	}
 	c.check(okTrue, "shrinking-set-before-snapshot", fn.Decl.Pos(), "shrinking = true dominates the start of the snapshot", "the snapshot can start before shrinking is set: writes during the snapshot are not captured")
 	okFalse := len(falses) >= 1
